@@ -230,8 +230,40 @@ func c16(c *Ctx) {
 	}
 	r.Count("functions_in_permit_flow", len(ts.Visited))
 
-	// ---- R3: release exactly once; semaphore.Release only from the paired action
+	// ---- R3: release exactly once; semaphore.Release only paired with the acquisition.
+	// Two designs are recognised: (A) the permit stores an action closure made by the acquisition
+	// wrapper, Release runs it under a successful CompareAndSwap; (B) the permit stores the
+	// semaphore itself, Release gives the weight back under CompareAndSwap / Swap(true)==false.
 	relFn := p.Func("portalwire", "ReleasePermit", "Release")
+	onceGate := func(fs []core.Fact) bool {
+		for _, f := range fs {
+			if f.Op != token.ILLEGAL {
+				continue
+			}
+			cc, ok := f.V.(*ssa.Call)
+			if !ok {
+				continue
+			}
+			id := core.CalleeID(cc)
+			if !strings.HasPrefix(id, "sync/atomic.") {
+				continue
+			}
+			if strings.HasSuffix(id, ".CompareAndSwap") && f.Truth && len(cc.Call.Args) == 3 {
+				o, okO := core.ConstBool(cc.Call.Args[1])
+				n, okN := core.ConstBool(cc.Call.Args[2])
+				if okO && okN && !o && n {
+					return true
+				}
+			}
+			if strings.HasSuffix(id, ".Swap") && !f.Truth && len(cc.Call.Args) == 2 {
+				if n, okN := core.ConstBool(cc.Call.Args[1]); okN && n {
+					return true
+				}
+			}
+		}
+		return false
+	}
+	semField := "" // design B: the permit field holding the semaphore
 	if relFn == nil {
 		r.Fail("R3.release-once", "ReleasePermit.Release", "-", "anchor-unresolved: releasing permit type not found")
 	} else {
@@ -239,29 +271,65 @@ func c16(c *Ctx) {
 		for _, b := range relFn.Blocks {
 			for _, in := range b.Instrs {
 				call, ok := in.(*ssa.Call)
-				if !ok || call.Call.IsInvoke() || core.StaticCalleeFn(call) != nil {
+				if !ok || call.Call.IsInvoke() {
 					continue
 				}
 				if _, isB := call.Call.Value.(*ssa.Builtin); isB {
 					continue
 				}
-				// dynamic call of the action
+				isAction := core.StaticCalleeFn(call) == nil
+				isDirect := core.CalleeID(call) == semRelease
+				if !isAction && !isDirect {
+					continue
+				}
 				n++
-				g := core.BoolCallGate("cas", true, func(c2 *ssa.Call) bool {
-					return strings.HasSuffix(core.CalleeID(c2), ".CompareAndSwap")
-				})
-				w := core.InstrGuarded(call, g.Edge, nil)
+				if isDirect {
+					if t, f, ok := core.LoadedField(call.Call.Args[0]); ok && t == "ReleasePermit" {
+						semField = f
+					}
+				}
+				w := core.InstrGuarded(call, onceGate, nil)
 				r.Check(w == nil, "R3.release-once", "ReleasePermit.Release action-under-CAS", p.Pos(call.Pos()),
-					"the release action runs only after a successful compare-and-swap of the released flag", "the release action can run more than once (no successful CAS on the path): "+p.PathString(w))
+					"the slot is given back only after the released flag was atomically switched from false to true", "the slot can be given back more than once (no successful atomic false->true switch on the path): "+p.PathString(w))
 			}
 		}
 		if n == 0 {
-			r.Fail("R3.release-once", "ReleasePermit.Release action", p.Pos(relFn.Pos()), "Release no longer invokes the stored action")
+			r.Fail("R3.release-once", "ReleasePermit.Release action", p.Pos(relFn.Pos()), "Release neither invokes a stored action nor gives the slot back")
 		}
 	}
 	for _, fn := range p.ModuleFuncs() {
 		for _, ci := range core.CallsTo(fn, semRelease) {
 			key := core.FuncName(fn) + " semaphore.Release"
+			if fn == relFn && semField != "" {
+				// design B: every construction of the permit stores the semaphore its wrapper acquired from
+				rw, _ := core.ConstInt(ci.Common().Args[1])
+				nb := 0
+				okAll := true
+				for _, w := range p.FieldWrites("ReleasePermit", semField) {
+					nb++
+					okW := false
+					for _, a := range core.CallsTo(w.Fn, semTryAcquire, semAcquire) {
+						aw, _ := core.ConstInt(a.Common().Args[len(a.Common().Args)-1])
+						pa, pv := core.AccessPath(a.Common().Args[0]), core.AccessPath(w.Val)
+						if pa != "" && pa == pv && !strings.HasPrefix(pa, "V:") && !strings.HasPrefix(pa, "A:") && aw == rw && aw > 0 {
+							// and the permit is built only after the acquisition succeeded
+							g := core.BoolCallGate("acquired", true, func(c2 *ssa.Call) bool { return c2 == a.(*ssa.Call) })
+							if core.InstrGuarded(w.Store, g.Edge, nil) == nil {
+								okW = true
+							}
+						}
+					}
+					if !okW {
+						okAll = false
+					}
+					r.Check(okW, "R3.release-once", core.FuncName(w.Fn)+" permit-holds-acquired-semaphore", p.Pos(w.Store.Pos()), "the permit holds the semaphore this wrapper took the same weight from, and is built only after the acquisition succeeded", "a permit can give a slot back to a semaphore it was not taken from, with another weight, or without having been taken")
+				}
+				if nb == 0 {
+					r.Fail("R3.release-once", key, p.Pos(ci.Pos()), "no construction of the permit sets the semaphore it gives back to")
+				}
+				_ = okAll
+				continue
+			}
 			par := fn.Parent()
 			okPlace := par != nil && containsFn(wrappers, par)
 			if !okPlace {
@@ -277,6 +345,10 @@ func c16(c *Ctx) {
 				_, af, okA := core.LoadedField(a.Common().Args[0])
 				_, rf, okR := core.LoadedField(ci.Common().Args[0])
 				if okA && okR && af == rf && aw == rw && aw > 0 {
+					okPair = true
+				}
+				// the same variable (e.g. a local holding the semaphore, captured by the action)
+				if pa, pr := core.AccessPath(a.Common().Args[0]), core.AccessPath(ci.Common().Args[0]); pa != "" && pa == pr && !strings.HasPrefix(pa, "V:") && !strings.HasPrefix(pa, "A:") && aw == rw && aw > 0 {
 					okPair = true
 				}
 			}
